@@ -153,7 +153,7 @@ func (commander *Commander) exec(ctx context.Context, parameters Parameters, scr
 				WithPostings(result.Postings...).
 				WithMetadata(result.Metadata).
 				WithDate(script.Timestamp).
-				WithID(commander.nextTXID()).
+				WithID(commander.nextTXID(parameters.DryRun)).
 				WithReference(script.Reference)
 
 			log := logComputer(tx, result.AccountMetadata)
@@ -179,8 +179,10 @@ func (commander *Commander) CreateTransaction(ctx context.Context, parameters Pa
 		return nil, err
 	}
 
-	verifhook.Yield(ctx, "publish.before")
-	commander.monitor.CommittedTransactions(ctx, *log.Data.(ledger.NewTransactionLogPayload).Transaction, log.Data.(ledger.NewTransactionLogPayload).AccountMetadata)
+	if !parameters.DryRun {
+		verifhook.Yield(ctx, "publish.before")
+		commander.monitor.CommittedTransactions(ctx, *log.Data.(ledger.NewTransactionLogPayload).Transaction, log.Data.(ledger.NewTransactionLogPayload).AccountMetadata)
+	}
 
 	return log.Data.(ledger.NewTransactionLogPayload).Transaction, nil
 }
@@ -221,8 +223,10 @@ func (commander *Commander) SaveMeta(ctx context.Context, parameters Parameters,
 		return err
 	}
 
-	verifhook.Yield(ctx, "publish.before")
-	commander.monitor.SavedMetadata(ctx, targetType, fmt.Sprint(targetID), m)
+	if !parameters.DryRun {
+		verifhook.Yield(ctx, "publish.before")
+		commander.monitor.SavedMetadata(ctx, targetType, fmt.Sprint(targetID), m)
+	}
 	return nil
 }
 
@@ -261,8 +265,10 @@ func (commander *Commander) RevertTransaction(ctx context.Context, parameters Pa
 		return nil, err
 	}
 
-	verifhook.Yield(ctx, "publish.before")
-	commander.monitor.RevertedTransaction(ctx, log.Data.(ledger.RevertedTransactionLogPayload).RevertTransaction, transactionToRevert)
+	if !parameters.DryRun {
+		verifhook.Yield(ctx, "publish.before")
+		commander.monitor.RevertedTransaction(ctx, log.Data.(ledger.RevertedTransactionLogPayload).RevertTransaction, transactionToRevert)
+	}
 
 	return log.Data.(ledger.RevertedTransactionLogPayload).RevertTransaction, nil
 }
@@ -280,12 +286,15 @@ func (commander *Commander) chainLog(log *ledger.Log) *ledger.ChainedLog {
 	return commander.lastLog
 }
 
-func (commander *Commander) nextTXID() *big.Int {
+// nextTXID returns the id the next transaction gets; a dry run only looks at it, it does not consume it.
+func (commander *Commander) nextTXID(dryRun bool) *big.Int {
 	commander.mu.Lock()
 	defer commander.mu.Unlock()
 
 	ret := big.NewInt(0).Add(commander.lastTXID, big.NewInt(1))
-	commander.lastTXID = ret
+	if !dryRun {
+		commander.lastTXID = ret
+	}
 
 	return ret
 }
@@ -324,8 +333,10 @@ func (commander *Commander) DeleteMetadata(ctx context.Context, parameters Param
 		return err
 	}
 
-	verifhook.Yield(ctx, "publish.before")
-	commander.monitor.DeletedMetadata(ctx, targetType, targetID, key)
+	if !parameters.DryRun {
+		verifhook.Yield(ctx, "publish.before")
+		commander.monitor.DeletedMetadata(ctx, targetType, targetID, key)
+	}
 
 	return nil
 }
